@@ -129,7 +129,11 @@ Seam == [pts |-> << <<R(0),R(0)>>, <<R(4),R(0)>>, <<R(4),R(3)>>, <<R(4),R(3)>>, 
 \* a triangle list may name the same vertex twice in one triangle (a collapsed triangle, listed FIRST here): it has no area, its
 \* edges are a self loop and one edge traversed both ways
 Collapsed == [pts |-> Grid23.pts, tris |-> <<<<2,2,5>>>> \o Grid23.tris]
-MeshPoolBase == [collapsed |-> Collapsed, seam |-> Seam, tetrafin |-> TetraFin, twinfan |-> TwinFan, grid22 |-> Grid22, grid23 |-> Grid23, fan |-> Fan, islands |-> Islands, fin |-> Fin, tetra |-> Tetra, grid3d |-> Grid3D]
+\* a sliver: a 3-D triangle 20000 long and 1 high (aspect 2e4) next to an ordinary one - "all triangle lists" includes needles, whose
+\* area a formula through the side lengths alone (Heron) loses to cancellation while the cross product does not
+Sliver == [pts |-> << <<R(0),R(0),R(0)>>, <<R(20000),R(0),R(0)>>, <<R(10000),R(0),R(1)>>, <<R(0),R(1),R(0)>>, <<R(2),R(1),R(0)>>, <<R(0),R(1),R(3)>> >>,
+           tris |-> <<<<0,1,2>>, <<3,4,5>>>>]
+MeshPoolBase == [sliver |-> Sliver, collapsed |-> Collapsed, seam |-> Seam, tetrafin |-> TetraFin, twinfan |-> TwinFan, grid22 |-> Grid22, grid23 |-> Grid23, fan |-> Fan, islands |-> Islands, fin |-> Fin, tetra |-> Tetra, grid3d |-> Grid3D]
 MeshPool == IF Wide THEN MeshPoolBase @@ [grid33 |-> Grid33, octa |-> Octa] ELSE MeshPoolBase
 MeshClasses == {"TriMesh", "ColouredTriMesh", "TexturedTriMesh"}
 \* masking: kept triangles = all three vertices kept; vertices without a kept triangle are dropped; order-preserving renumbering
